@@ -470,6 +470,26 @@ func c15Round(b *mon.B, r *gen.R, act *activity, caseNo, round int) {
 			}
 		}(cidx)
 	}
+	// ---- client-side helpers of the library used from several goroutines at once (every client
+	// goroutine of a real program builds its own headers and packets)
+	for g := 0; g < 4; g++ {
+		wg.Add(1)
+		go func() {
+			defer wg.Done()
+			for i := 0; i < 3000; i++ {
+				select {
+				case <-stop:
+					return
+				default:
+				}
+				h := tq.NewHeader(tq.SetHeaderVersion(tq.Version{MajorVersion: tq.MajorVersion, MinorVersion: tq.MinorVersionOne}), tq.SetHeaderType(tq.Authenticate), tq.SetHeaderRandomSessionID(), tq.SetHeaderSeqNo(1))
+				p := tq.NewPacket(tq.SetPacketHeader(h), tq.SetPacketBody([]byte{1, 2, 3}))
+				if _, err := p.MarshalBinary(); err != nil {
+					atomic.AddInt64(&wrong, 1)
+				}
+			}
+		}()
+	}
 	// let the reloader finish, then stop with connections in every state
 	done := make(chan struct{})
 	go func() {
